@@ -1,0 +1,153 @@
+//go:build verif
+
+// Copyright © 2022-2026 Obol Labs Inc. Licensed under the terms of a Business Source License 1.1
+
+package eth2wrap
+
+import (
+	"context"
+	"sort"
+
+	eth2p0 "github.com/attestantio/go-eth2-client/spec/phase0"
+)
+
+// This file only exports existing unexported entry points to the verification harness
+// (build tag verif). It adds no behaviour.
+
+// VerifProvide calls the unexported generic provide with a fresh best-client selector.
+func VerifProvide[O any](ctx context.Context, clients []Client, fallbacks []Client,
+	work func(context.Context, Client) (O, error), isSuccessFunc func(O) bool,
+) (O, error) {
+	return provide(ctx, clients, fallbacks,
+		func(ctx context.Context, args provideArgs) (O, error) {
+			return work(ctx, args.client)
+		},
+		isSuccessFunc, newBestSelector(bestPeriod),
+	)
+}
+
+// VerifSubmit calls the unexported submit with a fresh best-client selector.
+func VerifSubmit(ctx context.Context, clients []Client, fallbacks []Client,
+	work func(context.Context, Client) error,
+) error {
+	return submit(ctx, clients, fallbacks,
+		func(ctx context.Context, args provideArgs) error {
+			return work(ctx, args.client)
+		},
+		newBestSelector(bestPeriod),
+	)
+}
+
+// VerifIsFallbackError reports the three error classifiers used by provide to decide on fallbacks.
+func VerifIsFallbackError(err error) (timeout, syncing, badGateway bool) {
+	return isTimeoutError(err), isSyncingError(err), isBadGateway(err)
+}
+
+// VerifEpochSnap describes what the duties cache holds for one epoch of one duty kind.
+type VerifEpochSnap struct {
+	Epoch     uint64
+	Requested int // len(requestedIdxs[epoch]), -1 if the key is absent
+	Duties    int // len(duties[epoch]), -1 if the key is absent
+	HasMeta   bool
+}
+
+// VerifSnapshot returns, per duty kind (0 attester, 1 proposer, 2 sync), the epochs present in
+// any of the cache's maps, sorted by epoch. Read-only.
+func (c *DutiesCache) VerifSnapshot() [3][]VerifEpochSnap {
+	var res [3][]VerifEpochSnap
+
+	build := func(n func(eth2p0.Epoch) (int, int, bool), keys map[eth2p0.Epoch]struct{}) []VerifEpochSnap {
+		var out []VerifEpochSnap
+		for k := range keys {
+			r, d, m := n(k)
+			out = append(out, VerifEpochSnap{Epoch: uint64(k), Requested: r, Duties: d, HasMeta: m})
+		}
+
+		sort.Slice(out, func(i, j int) bool { return out[i].Epoch < out[j].Epoch })
+
+		return out
+	}
+
+	{
+		c.attesterDuties.RLock()
+		keys := make(map[eth2p0.Epoch]struct{})
+		for k := range c.attesterDuties.duties {
+			keys[k] = struct{}{}
+		}
+		for k := range c.attesterDuties.metadata {
+			keys[k] = struct{}{}
+		}
+		for k := range c.attesterDuties.requestedIdxs {
+			keys[k] = struct{}{}
+		}
+		res[0] = build(func(k eth2p0.Epoch) (int, int, bool) {
+			r, d := -1, -1
+			if v, ok := c.attesterDuties.requestedIdxs[k]; ok {
+				r = len(v)
+			}
+			if v, ok := c.attesterDuties.duties[k]; ok {
+				d = len(v)
+			}
+			_, m := c.attesterDuties.metadata[k]
+
+			return r, d, m
+		}, keys)
+		c.attesterDuties.RUnlock()
+	}
+
+	{
+		c.proposerDuties.RLock()
+		keys := make(map[eth2p0.Epoch]struct{})
+		for k := range c.proposerDuties.duties {
+			keys[k] = struct{}{}
+		}
+		for k := range c.proposerDuties.metadata {
+			keys[k] = struct{}{}
+		}
+		for k := range c.proposerDuties.requestedIdxs {
+			keys[k] = struct{}{}
+		}
+		res[1] = build(func(k eth2p0.Epoch) (int, int, bool) {
+			r, d := -1, -1
+			if v, ok := c.proposerDuties.requestedIdxs[k]; ok {
+				r = len(v)
+			}
+			if v, ok := c.proposerDuties.duties[k]; ok {
+				d = len(v)
+			}
+			_, m := c.proposerDuties.metadata[k]
+
+			return r, d, m
+		}, keys)
+		c.proposerDuties.RUnlock()
+	}
+
+	{
+		c.syncDuties.RLock()
+		keys := make(map[eth2p0.Epoch]struct{})
+		for k := range c.syncDuties.duties {
+			keys[k] = struct{}{}
+		}
+		for k := range c.syncDuties.metadata {
+			keys[k] = struct{}{}
+		}
+		for k := range c.syncDuties.requestedIdxs {
+			keys[k] = struct{}{}
+		}
+		res[2] = build(func(k eth2p0.Epoch) (int, int, bool) {
+			r, d := -1, -1
+			if v, ok := c.syncDuties.requestedIdxs[k]; ok {
+				r = len(v)
+			}
+			if v, ok := c.syncDuties.duties[k]; ok {
+				d = len(v)
+			}
+			_, m := c.syncDuties.metadata[k]
+
+			return r, d, m
+		}, keys)
+		c.syncDuties.RUnlock()
+	}
+
+	return res
+}
